@@ -303,7 +303,7 @@ def _r3_r4(ctx):
         for bb, tm in b.calls():
             if (callee_name(tm) or "").endswith("Vec::<T, A>::push"):
                 a = norm(T.call_args(bb)[1])
-                if any(y[0] == "bin" and y[1].startswith(("Add", "BitOr")) and any(norm(z) == ("const", 0xC0) for z in (y[2], y[3])) for y in subterms(a)):
+                if any(y[0] == "bin" and y[1].startswith(("Add", "BitOr")) and any(is_const(norm(z), 0xC0) for z in (y[2], y[3])) for y in subterms(a)):
                     emits.append((bb, tm, a))
         ctx.floor("R3", "pointer emission sites", len(emits), 2)
         # target selection: assignments `child = Some(node)` in the lookup loop must be under data < 0x4000
@@ -427,7 +427,7 @@ def _r5_r6(ctx):
         inc = False
         for bb, tm in rec:
             a = norm(T.call_args(bb)[2])
-            inc = any(y[0] == "bin" and y[1].startswith("Add") and norm(y[3]) == ("const", 1) for y in subterms(a))
+            inc = any(y[0] == "bin" and y[1].startswith("Add") and is_const(norm(y[3]), 1) for y in subterms(a))
         ctx.check(okk and inc, "R6", "pointer-following-has-bounded-depth:%s" % bound, ctx.where(b),
                   "the recursion on a compression pointer must be under `depth <= K` with constant K <= 127 and pass depth + 1")
         # every loop iteration consumes input or returns: the loop body calls get_u8 first
